@@ -166,9 +166,18 @@ KINDS = ['status', 'negotiate', 'negotiate_out', 'compress0',
          'compress256', 'encrypt', 'play']
 
 
-def run(kind, version, cut_link, cut_n, plan):
+SELECT_ERRORS = {
+    'fd_out_of_range': lambda: ValueError(
+        'filedescriptor out of range in select()'),
+    'ebadf': lambda: OSError(9, 'Bad file descriptor'),
+    'enomem': lambda: OSError(12, 'Cannot allocate memory'),
+}
+
+
+def run(kind, version, cut_link, cut_n, plan, select_fail=None):
     """Run one conversation; the server of TCP connection number cut_link
-    stops after cut_n bytes (None: no cut)."""
+    stops after cut_n bytes (None: no cut).  select_fail [n, name]: from its
+    n-th call on, select() raises."""
     specs, kw, entry = conversation(kind, version)
     srvs = []
     for i, sp in enumerate(specs):
@@ -182,6 +191,9 @@ def run(kind, version, cut_link, cut_n, plan):
     # extra connections (fallback) get a fresh copy of the last spec
     world = vnet.World(servers=pre + list(srvs),
                        default=lambda addr: _extra(srvs, specs), plan=plan)
+    if select_fail:
+        world.select_fail = (select_fail[0],
+                             SELECT_ERRORS[select_fail[1]]())
     seen = []
     status_calls = []
     off = len(pre)
@@ -335,7 +347,44 @@ def cut_case(ctx, case):
         ctx.label('cut_at_boundary')
 
 
-COMPONENTS = {'cut': cut_case}
+def select_case(ctx, case):
+    """The conversation goes on undisturbed but the client's own select()
+    starts failing at its n-th call (a descriptor number beyond FD_SETSIZE
+    in a process with many open files, EBADF, ENOMEM): the networking thread
+    must not spin or hang - it terminates and the error is reported.
+    case {kind, version, n, error}"""
+    kind, version = case['kind'], case['version']
+    ctx.ev()
+    r = run(kind, version, 0, None, 'whole',
+            select_fail=[case['n'], case['error']])
+    world, o = r['world'], r['o']
+    if world.select_spin:
+        ctx.fail('select', 'H1-busy-loop-after-select-error', case,
+                 'select() called > 300 more times after it began to fail',
+                 'the thread ends')
+        return
+    if r['alive'] == 'timeout':
+        from vlib.core import HarnessError
+        raise HarnessError('C15 select case did not settle: %r' % (case,))
+    if r['alive'] in ('idle', 'blocked'):
+        ctx.fail('select', 'H2-thread-did-not-terminate', case, r['alive'])
+        return
+    if r['err'] is not None:
+        ctx.fail('select', 'H3-entry-call-raised', case, exc=r['err'])
+        return
+    if world.select_fail_hits == 0:
+        ctx.label('select_fault_after_the_session_ended')
+        return
+    if not o.exceptions:
+        ctx.fail('select', 'H3-silent', case,
+                 'select() failed %d time(s), no error reported; exits=%d'
+                 % (world.select_fail_hits, o.exits), 'an error')
+        return
+    ctx.nt('select', kind, version, case['n'], case['error'])
+    ctx.label('select_fault')
+
+
+COMPONENTS = {'cut': cut_case, 'select': select_case}
 
 
 def cut_points(ends, N, quick):
@@ -380,6 +429,16 @@ def t_conv(ctx, kind, version, shard, nshards, quick):
                         for li in range(nlinks)):
         ctx.exhaustive_done('%s @%d: every byte offset x 3 segmentations'
                             % (kind, version))
+
+
+def t_select(ctx, version):
+    for kind in ('status', 'play', 'compress256', 'encrypt'):
+        for err in sorted(SELECT_ERRORS):
+            for n in (1, 2, 3, 5, 8):
+                select_case(ctx, {'kind': kind, 'version': version, 'n': n,
+                                  'error': err})
+    ctx.sample({'kind': 'play', 'version': version, 'n': 3,
+                'error': 'fd_out_of_range'}, 'select')
 
 
 def t_bigframe(ctx, version):
@@ -437,6 +496,8 @@ def tasks(tier):
                             quick=q)))
     for v in (PROTOCOLS[::3] if q else PROTOCOLS):
         tl.append(('bigframe_%d' % v, t_bigframe, dict(version=v)))
+    for v in (PROTOCOLS[::2] if q else PROTOCOLS):
+        tl.append(('select_%d' % v, t_select, dict(version=v)))
     for i in range(2 if q else 8):
         tl.append(('random_%d' % i, t_random, dict(n=60 if q else 1500)))
     return tl
